@@ -321,20 +321,40 @@ func mkErr(flavor int, tag string) error {
 	}
 }
 
-// chainHas: target occurs in got's Unwrap chain. errors.Is cannot match a target whose
-// dynamic type is not comparable, so such targets are found with errors.As + identity.
-func chainHas(got, target error) bool {
-	if reflect.TypeOf(target).Comparable() {
-		return errors.Is(got, target)
+// errTreeAny walks the whole error tree of got (Unwrap() error and Unwrap() []error).
+func errTreeAny(got error, pred func(error) bool) bool {
+	if got == nil {
+		return false
 	}
-	if se, isSlice := target.(SliceErr); isSlice {
-		var s SliceErr
-		return errors.As(got, &s) && sameErr(s, se)
+	if pred(got) {
+		return true
+	}
+	switch u := got.(type) {
+	case interface{ Unwrap() error }:
+		return errTreeAny(u.Unwrap(), pred)
+	case interface{ Unwrap() []error }:
+		for _, e := range u.Unwrap() {
+			if errTreeAny(e, pred) {
+				return true
+			}
+		}
 	}
 	return false
 }
 
-// errMatches: got must match the exact error value want under errors.Is / errors.As.
+// chainHas: the very value target occurs in got's error tree. For comparable targets this is
+// errors.Is; a target whose dynamic type is not comparable can never match under errors.Is, so
+// it is looked up by identity of its backing array.
+func chainHas(got, target error) bool {
+	if reflect.TypeOf(target).Comparable() {
+		return errors.Is(got, target)
+	}
+	return errTreeAny(got, func(e error) bool { return sameErr(e, target) })
+}
+
+// errMatches: got must match the exact error value want under errors.Is / errors.As: want (and
+// the sentinel it wraps, if any) is in got's tree, and errors.As finds a value of want's type.
+// Wrapping, joining several errors and adding context are all admissible.
 func errMatches(got, want error) string {
 	if got == nil {
 		return "returned error is nil"
@@ -345,22 +365,23 @@ func errMatches(got, want error) string {
 	if inner := errors.Unwrap(want); inner != nil && !chainHas(got, inner) {
 		return fmt.Sprintf("errors.Is/As(%q, inner %q) is false", got, inner)
 	}
-	switch w := want.(type) {
+	okAs := true
+	switch want.(type) {
 	case *PtrErr:
 		var p *PtrErr
-		if !errors.As(got, &p) || p != w {
-			return fmt.Sprintf("errors.As(%q) does not recover the *PtrErr instance", got)
-		}
+		okAs = errors.As(got, &p)
 	case ValErr:
 		var v ValErr
-		if !errors.As(got, &v) || v != w {
-			return fmt.Sprintf("errors.As(%q) does not recover the ValErr value", got)
-		}
+		okAs = errors.As(got, &v)
 	case *TempErr:
 		var p *TempErr
-		if !errors.As(got, &p) || p != w {
-			return fmt.Sprintf("errors.As(%q) does not recover the *TempErr instance", got)
-		}
+		okAs = errors.As(got, &p)
+	case SliceErr:
+		var s SliceErr
+		okAs = errors.As(got, &s)
+	}
+	if !okAs {
+		return fmt.Sprintf("errors.As(%q) finds no value of type %T", got, want)
 	}
 	return ""
 }
